@@ -54,6 +54,7 @@ func checkForce(l lm.List, d int64, filler bool) (lm.List, string, string) {
 
 func c14Run(c *core.Ctx) {
 	longRun(c, "force")
+	againRun(c, "force")
 	if c.Shard == 0 {
 		key, msg := fillerFresh()
 		c.Record("filler-fresh", core.Hash64(key), core.Hash64("filler-fresh"), nil)
